@@ -41,6 +41,9 @@ class MetadataRenderer(query_render.ObjectRenderer):
 
 
 class GetAttrColumn(query_compile.EvalColumn):
+    # Columns are distinguished by the attribute they access.
+    __slots__ = ('name',)
+
     def __init__(self, name, dtype):
         super().__init__(dtype)
         self.name = name
@@ -175,6 +178,9 @@ class DocumentsTable(Table):
 
 
 class GetItemColumn(query_compile.EvalColumn):
+    # Columns are distinguished by the item they access.
+    __slots__ = ('key',)
+
     def __init__(self, key, dtype):
         super().__init__(dtype)
         self.key = key
